@@ -99,7 +99,13 @@ type State struct {
 	notes    []noteRec
 	merge    *mergeCtx
 	arrObjs  []*Object
+	apps     []*Term
+	model    map[string]uint64
+	fallbacks []*Solver
+	firstRange bool
+	choices  []int
 	mergeFns []string
+	replFns  map[string]*Closure
 	poolVC   map[lockKey]VC
 }
 
@@ -169,6 +175,11 @@ func (s *State) assume(c *Term) {
 		return
 	}
 	s.pc = append(s.pc, c)
+	if s.model != nil {
+		if v, ok := s.evalModel(c); !ok || !v {
+			s.model = nil
+		}
+	}
 }
 
 func (s *State) sync() {
@@ -184,12 +195,87 @@ func (s *State) check(c *Term) SatResult {
 	if c.IsFalse() {
 		return Unsat
 	}
-	s.sync()
-	r := s.solver.Check(c)
+	r, _ := s.solve(nil, c)
 	if r == Unknown {
 		s.ex.noteUnknown(c)
 	}
 	return r
+}
+
+// solve decides PC ∧ extra with a staged portfolio: the incremental primary solver with a short
+// timeout, then a stateless fallback solver (integer encoding of bit-vector arithmetic), then the
+// primary again with the full timeout. If vars != nil a model is returned on Sat.
+func (s *State) solve(vars []*Term, extra ...*Term) (SatResult, map[string]uint64) {
+	s.sync()
+	full := s.ex.Cfg.TimeoutMs
+	short := s.ex.Cfg.ShortMs
+	if short <= 0 || short > full || len(s.fallbacks) == 0 {
+		short = full
+	}
+	s.solver.SetTimeout(short)
+	r, m := s.solveOn(s.solver, vars, extra)
+	if r != Unknown {
+		return r, m
+	}
+	for _, fb := range s.fallbacks {
+		r, m = fb.CheckFresh(s.pc, vars, extra)
+		if r != Unknown {
+			s.ex.noteFallback()
+			return r, m
+		}
+	}
+	if short < full {
+		s.solver.SetTimeout(full)
+		r, m = s.solveOn(s.solver, vars, extra)
+		s.solver.SetTimeout(short)
+	}
+	return r, m
+}
+
+func (s *State) solveOn(sv *Solver, vars []*Term, extra []*Term) (SatResult, map[string]uint64) {
+	if vars == nil {
+		return sv.Check(extra...), nil
+	}
+	return sv.CheckModel(vars, extra...)
+}
+
+// modelVars lists everything a model should give values for.
+func (s *State) modelVars() []*Term {
+	vars := append([]*Term{}, s.vars...)
+	vars = append(vars, s.apps...)
+	for _, o := range s.arrObjs {
+		if l, ok := s.concreteMax(o.Len); ok && l <= 1024 && o.Arr != nil {
+			base := o.Arr
+			for base.Op == OStore {
+				base = base.A[0]
+			}
+			if base.Op == OArrVar {
+				for q := 0; q < l; q++ {
+					vars = append(vars, Select(base, Const(64, uint64(q))))
+				}
+			}
+		}
+	}
+	return vars
+}
+
+// ensureModel makes s.model a model of the current path condition (nil if the solver cannot say).
+func (s *State) ensureModel() {
+	if s.model != nil {
+		return
+	}
+	r, m := s.solve(s.modelVars())
+	if r == Sat {
+		s.model = m
+	}
+}
+
+func (s *State) evalModel(c *Term) (bool, bool) {
+	if s.model == nil {
+		return false, false
+	}
+	v, ok := EvalOK(c, s.model, map[*Term]uint64{})
+	return v != 0, ok
 }
 
 // branch decides a symbolic condition, forking the path if both outcomes are feasible.
@@ -220,6 +306,27 @@ func (s *State) branch(c *Term) bool {
 	}
 	s.dpos++
 	// d: bit0 = outcome, bit1 = "implied by path condition" (no assertion needed)
+	if s.ex.Cfg.ModelGuide {
+		s.ensureModel()
+		if side, ok := s.evalModel(c); ok {
+			// the current model witnesses one side; only the other side needs the solver
+			mine, other := c, Not(c)
+			d := 1
+			if !side {
+				mine, other = other, mine
+				d = 0
+			}
+			if s.check(other) == Unsat {
+				s.trace = append(s.trace, d|2)
+				return side
+			}
+			alt := append(append([]int{}, s.trace...), 1-d)
+			s.ex.push(alt)
+			s.trace = append(s.trace, d)
+			s.assume(mine)
+			return side
+		}
+	}
 	rt := s.check(c)
 	if rt == Unsat {
 		s.trace = append(s.trace, 0|2)
@@ -441,6 +548,18 @@ func (s *State) callFn(fr *Frame, fn *ssa.Function, args []Value, env []Value, d
 			return
 		}
 		panic(execAbort{"unsupported", "no body and no stub for " + fn.String()})
+	}
+	if len(s.replFns) > 0 && s.atomic == 0 {
+		name := fn.String()
+		for suf, cl := range s.replFns {
+			if strings.HasSuffix(name, suf) {
+				if s.stubSeen != nil {
+					s.stubSeen["summary:"+name] = true
+				}
+				s.pushFrame(cl.Fn, args, cl.Env, dest)
+				return
+			}
+		}
 	}
 	if s.merge == nil && len(s.mergeFns) > 0 && s.wantMerge(fn) {
 		r := s.callMerged(fn, args, env)
@@ -869,6 +988,10 @@ func (s *State) evalInstr(fr *Frame, instr ssa.Instruction) Value {
 		switch m := x.(type) {
 		case MapRef:
 			it := &MapIter{M: m.M}
+			if s.cfg != nil && s.cfg.FirstRangeInOrder && s.begun && s.atomic == 0 && !s.firstRange {
+				s.firstRange = true
+				it.InOrder = true
+			}
 			if m.M != nil {
 				s.mapAccess(m.M, false)
 				it.Rest = append(it.Rest, m.M.Entries...)
